@@ -1,67 +1,153 @@
 (* C12 — a lost connection is reported exactly once, wherever the stream is cut.
    [items] is the list of elements completely received before the cut (the harness
-   cuts the byte stream at every offset and maps the prefix to this list); the end
-   of the list is the read error. *)
+   cuts the byte stream at every offset and maps the prefix to this list); the end of the list is
+   the read error.  [wf] is any write-fault oracle.  C12_cut_inside_element ties the list to the
+   stream at the level of XML tokens: a cut between two elements or anywhere inside one (after
+   its start tag, inside its content, before its end tag) yields the packets of the complete
+   elements and then an error, never a truncated stanza.  Below tokens (a cut inside a tag, inside
+   text, inside an entity: Go's tokenizer reports a syntax error there) only the harness speaks:
+   every byte offset of every generated stream.
+
+   "The receive loop and the keepalive then stop": the loop's trace is finite and the Disconnected
+   event is its last action; the keepalive side is C18 (C18_stops_iff, C18_after_quit_silent) on the
+   channel closed at [AQuit] here.  "No goroutine is left behind, nothing panics": runtime facts,
+   counted by the harness after quiescence (stack inspection), not stateable over this model.
+   An element NextPacket rejects ends the loop with the same report although the connection itself
+   is not cut (the loop does not close it). *)
 From Coq Require Import List ZArith NArith Bool.
 From XV Require Import Lib.Sx Model.Recv Proofs.RecvP.
+From XV Require Model.XmlTree Model.Parser Model.RecvFrame Proofs.RecvFrameP.
 Import ListNotations.
 Open Scope N_scope.
 
-(* For every prefix of complete elements and every write fault: the loop stops
-   exactly once: the keepalive quit channel is closed once, BEFORE the loss is reported
-   (under a StreamManager the Disconnected handler only returns when a new session is
-   up; a keepalive still ticking during the outage pings a transport that is being
-   reconnected), and after it nothing is routed or written any more; exactly one
-   Disconnected event is emitted (also when the server closed the stream itself), it
-   carries the stream-management count; the error callback runs exactly once for a
-   loss (plus once per stream error the server had sent; not for a clean server
-   close); and every stanza completely received before the cut has been routed. *)
+(* For every prefix of complete elements and every write fault: the keepalive quit channel is closed
+   exactly once, BEFORE the loss is reported and before ANY application callback is entered on the
+   receive goroutine (under a StreamManager such a callback only returns when a new session is up; a
+   keepalive still ticking during the outage pings a transport that is being reconnected); exactly one
+   Disconnected event is emitted (also when the server closed the stream itself), it is the LAST thing
+   the loop does and it - no other - carries the count held plus the stanzas processed; the error
+   callback runs exactly once for a loss (plus once per stream error the server had sent; not for a
+   clean server close); and every element completely received before the cut has been routed. *)
 Theorem C12_reported_once : forall items inb nw wf,
   let tr := crecv inb nw wf items in
-  let p := processed nw wf items in
+  let p := processed items in
   count_act is_quit tr = 1%nat /\
-  (quit_before_disc tr = true /\ quiet_after_quit tr = true) /\
+  (quit_before_disc tr = true /\ quit_before_callbacks tr = true) /\
   count_act is_disc tr = 1%nat /\
-  In (AEvDisconnected (inb + count_stanzas p)) tr /\
-  count_act is_err tr = ((if ends_by_close nw wf items then 0 else 1) + length (filter is_serr p))%nat /\
-  filter is_stanza (routed tr) = filter is_stanza p.
-Proof.
-  intros items inb nw wf. cbn zeta.
-  pose proof (crecv_loss items inb nw wf) as H. cbn zeta in H.
-  destruct H as (Hq & (Hl1 & Hl2) & Hd & He & Hin).
-  repeat split; try assumption. apply crecv_stanzas_once.
-Qed.
+  (exists pre, tr = pre ++ [AEvDisconnected (inb + count_stanzas p)]) /\
+  (forall n, In (AEvDisconnected n) tr -> n = inb + count_stanzas p) /\
+  count_act is_err tr = ((if ends_by_close items then 0 else 1) + length (filter is_serr p))%nat /\
+  routed tr = p.
+Proof. exact crecv_reported_once. Qed.
 
-(* a cut with no terminator before it: everything received was processed *)
-Theorem C12_cut_anywhere : forall items inb,
-  forallb (fun i => match i with IBad | IClose | IStreamError _ => false | _ => true end) items = true ->
-  let tr := crecv inb 0 None items in
-  count_act is_err tr = 1%nat /\ count_act is_disc tr = 1%nat /\
-  filter is_stanza (routed tr) = filter is_stanza items.
+(* WHERE the quit channel is closed relative to the routing: before it the loop has done only what a
+   live session does, for exactly the elements received before the first stream error; the first stream
+   error and everything received behind it are routed (and requests answered) AFTER it - the code closes
+   the channel when the stream error arrives and goes on reading until the connection is gone. *)
+Theorem C12_quit_position : forall items inb nw wf,
+  exists pre post, crecv inb nw wf items = pre ++ AQuit :: post /\
+    forallb is_live pre = true /\
+    routed pre = before_serr (processed items) /\
+    routed post = from_serr (processed items) /\
+    count_act is_quit post = 0%nat.
+Proof. exact crecv_quit_position. Qed.
+
+(* without a stream error: once quit is closed only the loss is reported, nothing is routed or written *)
+Theorem C12_quiet_after_quit : forall items inb nw wf,
+  filter is_serr (processed items) = [] -> quiet_after_quit (crecv inb nw wf items) = true.
+Proof. exact crecv_quiet_without_stream_error. Qed.
+
+(* in the trace's own terms: whichever application callback the receive goroutine enters (router, event
+   handler, error callback), quit has been closed before *)
+Theorem C12_callbacks_after_quit : forall items inb nw wf pre a post,
+  crecv inb nw wf items = pre ++ a :: post -> is_callback a = true -> In AQuit pre.
+Proof. exact crecv_callbacks_after_quit. Qed.
+
+(* A stream error, behind [items], whose event handler has replaced the connection (a StreamManager
+   reconnects from inside it): the loop leaves the transport to the new session.  The loss was reported
+   by the StreamError event and the error callback - they are the last things the loop does; there is NO
+   Disconnected event from this loop, no Disconnect (it would close the new session) and no further
+   error callback; quit was closed before any callback; [items] and the stream error were routed once
+   each.  (Whether exactly one session results is C13's matter.)  When something in [items] ends the loop
+   before, it never gets there and the loss is reported as above. *)
+Theorem C12_handed_over : forall t items inb nw wf,
+  (reaches_end items = true ->
+   let tr := crecv_handover t inb nw wf items in
+   count_act is_quit tr = 1%nat /\ quit_before_callbacks tr = true /\
+   count_act is_disc tr = 0%nat /\
+   count_act is_err tr = (1 + length (filter is_serr items))%nat /\
+   routed tr = items ++ [IStreamError t] /\
+   routed_async tr = filter (fun i => negb (is_serr i)) items /\
+   attempted tr = expected_answers inb items /\
+   exists pre, tr = pre ++ [ARouteSync (IStreamError t); AEvStreamError; AErrCall] /\
+               count_act is_callback pre = (3 * length (filter is_serr items))%nat) /\
+  (reaches_end items = false -> crecv_handover t inb nw wf items = crecv inb nw wf items).
+Proof. intros. split; [apply crecv_handed_over|apply crecv_handover_not_reached]. Qed.
+
+(* the three ways the loop ends of itself, read off the input *)
+Theorem C12_endings : forall items,
+  match how_ended items with
+  | EndCut => processed items = items
+  | EndRejected => exists r, items = processed items ++ IBad :: r
+  | EndClosed => exists r, items = processed items ++ IClose :: r
+  end.
+Proof. exact how_ended_spec. Qed.
+
+(* a cut with nothing before it that ends the loop, for every write fault: everything received was routed,
+   one Disconnected event (last, with the right count), one error callback for the loss plus one per
+   stream error received; and with no stream error: exactly one error callback, silence after quit *)
+Theorem C12_cut_anywhere : forall items inb nw wf,
+  reaches_end items = true ->
+  let tr := crecv inb nw wf items in
+  routed tr = items /\
+  count_act is_quit tr = 1%nat /\ count_act is_disc tr = 1%nat /\
+  count_act is_err tr = (1 + length (filter is_serr items))%nat /\
+  (exists pre, tr = pre ++ [AEvDisconnected (inb + count_stanzas items)]) /\
+  (filter is_serr items = [] -> count_act is_err tr = 1%nat /\ quiet_after_quit tr = true).
+Proof. exact crecv_cut_anywhere. Qed.
+
+(* the cut at the level of XML tokens: [items] complete top-level items (C02's hypotheses), then EITHER the end
+   of the input OR a proper, non-empty prefix [pre] of the tokens of one more dispatchable element, whatever
+   it contains.  The loop run on what NextPacket makes of that routes exactly the elements of [items] (nothing
+   of the cut element), closes quit once, emits one Disconnected event, the last thing it does, carrying the
+   count held plus the complete stanzas, and one error callback for the loss (plus one per stream error). *)
+Theorem C12_cut_inside_element : forall reg tok idn items inb nw wf,
+  forallb (Parser.top_ok reg tok) items = true ->
+  forall toks,
+    (toks = XmlTree.flatten_all items \/
+     exists n a cs pre suf, Parser.dispatchable n = true /\
+       XmlTree.flatten (XmlTree.NElem n a cs) = pre ++ suf /\ pre <> [] /\ suf <> [] /\
+       toks = XmlTree.flatten_all items ++ pre) ->
+    let tr := crecv inb nw wf (map (RecvFrame.item_of idn) (Parser.run_packets reg true tok toks)) in
+    let want := map (RecvFrame.item_of idn) (Parser.pkts_of items) in
+    routed tr = want /\
+    count_act is_quit tr = 1%nat /\ count_act is_disc tr = 1%nat /\
+    count_act is_err tr = (1 + length (filter is_serr want))%nat /\
+    (exists pre', tr = pre' ++ [AEvDisconnected (inb + count_stanzas want)]) /\
+    attempted tr = expected_answers inb want.
 Proof.
-  intros items inb H. cbn zeta.
-  assert (Hp : forall nw, processed nw None items = items).
-  { clear -H. induction items as [|j items IHi]; intros nw; [reflexivity|].
-    cbn [forallb] in H. apply andb_true_iff in H as [Hj H].
-    destruct j; try discriminate; cbn [processed]; rewrite IHi; auto. }
-  pose proof (crecv_loss items inb 0%nat None) as L. cbn zeta in L.
-  destruct L as (_ & _ & Hd & He & _).
-  assert (Hc : ends_by_close 0 None items = false).
-  { unfold ends_by_close. rewrite Hp, skipn_all. reflexivity. }
-  rewrite Hc, Hp in *. cbn [Nat.add] in He.
-  assert (Hs : filter is_serr items = []).
-  { clear -H. induction items as [|j items IHi]; [reflexivity|].
-    cbn [forallb] in H. apply andb_true_iff in H as [Hj H].
-    destruct j; try discriminate; cbn [filter is_serr]; auto. }
-  rewrite Hs in He. split; [exact He|]. split; [exact Hd|].
-  rewrite crecv_stanzas_once, Hp. reflexivity.
+  intros reg tok idn items inb nw wf H toks [->|(n & a & cs & pre & suf & Hd & Hf & Hp & Hs & ->)].
+  - apply RecvFrameP.crecv_tokens_eof, H.
+  - apply (RecvFrameP.crecv_tokens_truncated reg tok idn items n a cs pre suf inb nw wf H Hd Hf Hp Hs).
 Qed.
 
 Example C12_example :
-  crecv 2 0 (Some 1%nat) [IStanza KMsg 1; ISmR; IStanza KMsg 2]
+  crecv 2 0 (fault_at 1) [IStanza KMsg 1; ISmR; IStanza KMsg 2]
   = [ARouteAsync (IStanza KMsg 1); AWriteFail 3; ARouteAsync ISmR; ARouteAsync (IStanza KMsg 2);
-     AQuit; AErrCall; AEvDisconnected 4].
-Proof. reflexivity. Qed.
+     AQuit; AErrCall; AEvDisconnected 4]
+  /\ crecv 0 0 no_fault [IStanza KMsg 1; IStreamError 0; ISmR; IStanza KMsg 2]
+  = [ARouteAsync (IStanza KMsg 1); AQuit; ARouteSync (IStreamError 0); AEvStreamError; AErrCall; ADisconnectCall;
+     AWrite 1; ARouteAsync ISmR; ARouteAsync (IStanza KMsg 2); AErrCall; AEvDisconnected 2]
+  /\ crecv_handover 0 0 0 no_fault [IStanza KMsg 1]
+  = [ARouteAsync (IStanza KMsg 1); AQuit; ARouteSync (IStreamError 0); AEvStreamError; AErrCall]
+  /\ reaches_end [IStanza KMsg 1; IStreamError 0; ISmR; IStanza KMsg 2] = true.
+Proof. repeat split; reflexivity. Qed.
 
 Print Assumptions C12_reported_once.
+Print Assumptions C12_quit_position.
+Print Assumptions C12_quiet_after_quit.
+Print Assumptions C12_callbacks_after_quit.
+Print Assumptions C12_handed_over.
+Print Assumptions C12_endings.
 Print Assumptions C12_cut_anywhere.
+Print Assumptions C12_cut_inside_element.
